@@ -199,7 +199,10 @@ class Fn:
             out.add(('arg', l))
         for d in self.defs.get(l, ()):
             if d[0] == 'call':
-                out.add(('call', d[1]))
+                if d[2]['fd'] in ORIGIN_TRANSPARENT and d[2]['args'] and depth < 12:
+                    out |= self.origins(d[2]['args'][0], depth + 1, seen)
+                else:
+                    out.add(('call', d[1]))
             elif d[0] == 'stmt':
                 rv = d[3]
                 k = rv['k']
@@ -471,6 +474,11 @@ def rv_operands(rv):
 
 # ----------------------------------------------------------------------------- E1 engine
 
+ORIGIN_TRANSPARENT = {
+    'std::ops::Deref::deref', 'std::ops::DerefMut::deref_mut', 'std::convert::AsRef::as_ref', 'std::borrow::Borrow::borrow',
+    'std::option::Option::<T>::as_ref', 'std::option::Option::<T>::as_mut', 'std::option::Option::<T>::as_deref', 'std::result::Result::<T, E>::as_ref',
+    'std::ops::Try::branch', 'std::vec::Vec::<T, A>::as_slice', 'std::string::String::as_str',
+}
 IDENTITY_CALLS = {
     'std::option::Option::<T>::as_ref', 'std::option::Option::<T>::as_mut', 'std::option::Option::<T>::as_deref',
     'std::option::Option::<T>::as_deref_mut', 'std::result::Result::<T, E>::as_ref', 'std::result::Result::<T, E>::as_mut',
